@@ -11,7 +11,7 @@ for f in k['fixed']:
     if m: print(m.group(2), m.group(1), m.group(3).replace('\n',' ')[:300])
 PY
 while read -r hash prop what; do
-  d=seeded/revert-$hash; mkdir -p $d
+  d=/verif/seeded/revert-$hash; mkdir -p $d
   git -C /repo diff $hash^ $hash > $d/fix.diff
   if ! git -C /repo apply -R --check $d/fix.diff 2>/dev/null; then
      echo "revert-$hash ($prop): reverse patch does not apply cleanly on HEAD (later fixes touch the same lines): skipped"; continue
